@@ -89,13 +89,13 @@ fn bounds(prop: &str, tier: Tier) -> Bounds {
     let q = tier == Tier::Quick;
     use Family::*;
     // (family, size level, also check the children one ply below)
-    let thorough_families = vec![(PawnPush, 1, true), (PromoPin, 0, true), (EpPlayed, 1, true), (Ep, 1, true), (Castle, 1, true), (Promo, 1, true), (EpCheck, 1, true), (PromoCheck, 1, true), (Three, 0, true)];
+    let thorough_families = vec![(PawnPush, 1, true), (PromoPin, 0, true), (Pin, 1, true), (EpPlayed, 1, true), (Ep, 1, true), (Castle, 1, true), (Promo, 1, true), (EpCheck, 1, true), (PromoCheck, 1, true), (Three, 0, true)];
     match prop {
         "C01" => Bounds {
             start_depth: if q { 4 } else { 6 },
             perft_depth: if q { 2 } else { 4 },
             scenario_depth: if q { 2 } else { 3 },
-            families: if q { vec![(PawnPush, 0, true), (PromoPin, 0, true), (Three, 0, false), (Ep, 0, false), (EpPlayed, 0, true), (Castle, 0, false), (Promo, 0, false)] } else { thorough_families },
+            families: if q { vec![(PawnPush, 0, true), (PromoPin, 0, true), (Three, 0, false), (Pin, 0, false), (Ep, 0, false), (EpPlayed, 0, true), (Castle, 0, false), (Promo, 0, false)] } else { thorough_families },
             sweep_stride: 64,
         },
         "C02" => Bounds {
@@ -105,7 +105,7 @@ fn bounds(prop: &str, tier: Tier) -> Bounds {
             families: if q {
                 vec![(PawnPush, 0, true), (PromoPin, 0, true), (EpCheck, 0, false), (PromoCheck, 0, false), (Castle, 0, false)]
             } else {
-                vec![(PawnPush, 1, true), (PromoPin, 0, true), (Ep, 1, false), (Castle, 1, false), (Promo, 1, false), (EpCheck, 1, false), (PromoCheck, 1, false), (Three, 0, false)]
+                vec![(PawnPush, 1, true), (PromoPin, 0, true), (Pin, 0, false), (Ep, 1, false), (Castle, 1, false), (Promo, 1, false), (EpCheck, 1, false), (PromoCheck, 1, false), (Three, 0, false)]
             },
             sweep_stride: 256,
         },
@@ -113,7 +113,7 @@ fn bounds(prop: &str, tier: Tier) -> Bounds {
             start_depth: if q { 4 } else { 6 },
             perft_depth: if q { 2 } else { 4 },
             scenario_depth: if q { 2 } else { 3 },
-            families: if q { vec![(PawnPush, 0, true), (PromoPin, 0, true), (Three, 0, false), (EpCheck, 0, true), (PromoCheck, 0, true), (Castle, 0, true)] } else { thorough_families },
+            families: if q { vec![(PawnPush, 0, true), (PromoPin, 0, true), (Three, 0, false), (Pin, 0, false), (EpCheck, 0, true), (PromoCheck, 0, true), (Castle, 0, true)] } else { thorough_families },
             sweep_stride: 64,
         },
         "C04" => Bounds {
@@ -165,7 +165,7 @@ pub fn run(prop: &str, args: &Args) -> i32 {
     // families
     let mut fam_json = vec![];
     for (fam, level, children) in &b.families {
-        if reduced() && (matches!(*fam, Family::Promo | Family::Ep | Family::EpPlayed | Family::PromoCheck) || (*fam == Family::Three && prop == "C01")) {
+        if reduced() && (matches!(*fam, Family::Promo | Family::Ep | Family::EpPlayed | Family::PromoCheck | Family::Pin) || (*fam == Family::Three && prop == "C01")) {
             continue;
         }
         let mut child_props = props;
